@@ -36,6 +36,40 @@ struct fixpo_visits_visitor : public ikos::wto_component_visitor<z_cfg_ref_t> {
   }
 };
 
+// C15: answers of the real domain to the reference queries on one invariant:
+//  [[is_null_ref (1 true, 0 false, 2 top, 3 bottom), get_allocation_sites returned true ? 1 : 0, [sites]], ...] per reference
+static void emit_refq(std::ostream &o, ref_t inv, const vj::Value &p, const VarTab &vt) {
+  const vj::Value &refs = p["refs"];
+  o << "[";
+  for (size_t j = 0; j < refs.size(); ++j) {
+    const z_var &v = vt.v(refs[j].i());
+    crab::domains::boolean_value n = inv.is_null_ref(v);
+    int code = n.is_bottom() ? 3 : n.is_true() ? 1 : n.is_false() ? 0 : 2;
+    std::vector<crab::allocation_site> sites;
+    bool ok = inv.get_allocation_sites(v, sites);
+    o << (j ? "," : "") << "[" << code << "," << (ok ? 1 : 0) << ",[";
+    if (ok)
+      for (size_t k = 0; k < sites.size(); ++k) o << (k ? "," : "") << sites[k].index();
+    o << "]]";
+  }
+  o << "]";
+}
+//  [[get_tags returned true ? 1 : 0, [tags]], ...] per region variable (the reference argument of get_tags is unused by
+//  the region domain but must have reference type)
+static void emit_tagq(std::ostream &o, ref_t inv, const vj::Value &p, const VarTab &vt) {
+  const vj::Value &rgns = p["rgns"];
+  o << "[";
+  for (size_t j = 0; j < rgns.size(); ++j) {
+    std::vector<uint64_t> tags;
+    bool ok = p["refs"].size() > 0 && inv.get_tags(vt.v(rgns[j].i()), vt.v(p["refs"][0].i()), tags);
+    o << (j ? "," : "") << "[" << (ok ? 1 : 0) << ",[";
+    if (ok)
+      for (size_t k = 0; k < tags.size(); ++k) o << (k ? "," : "") << tags[k];
+    o << "]]";
+  }
+  o << "]";
+}
+
 static void run_one(const vj::Value &p, size_t k, std::ostream &o) {
   const vj::Value &run = p["runs"][k];
   crab::domains::crab_domain_params_man::get() = crab::domains::crab_domain_params();
@@ -90,6 +124,18 @@ static void run_one(const vj::Value &p, size_t k, std::ostream &o) {
   for (size_t b = 1; b <= nb; ++b) {
     o << (b > 1 ? "," : "");
     emit_obs(o, a.get_post(blabel(b)), vt, qvars, false);
+  }
+  if (p.has("refs")) {
+    const char *names[4] = {"rq_pre", "rq_post", "tq_pre", "tq_post"};
+    for (int q = 0; q < 4; ++q) {
+      o << "],\"" << names[q] << "\":[";
+      for (size_t b = 1; b <= nb; ++b) {
+        o << (b > 1 ? "," : "");
+        ref_t inv = (q % 2 == 0) ? a.get_pre(blabel(b)) : a.get_post(blabel(b));
+        if (q < 2) emit_refq(o, inv, p, vt);
+        else emit_tagq(o, inv, p, vt);
+      }
+    }
   }
   o << "],\"checks\":[";
   if (run.geti("check", 1)) {
